@@ -248,8 +248,8 @@ func (dec *xmlReader) Type() Type {
 			if ty, ok := typeFromName(attr.Value); ok {
 				return ty
 			}
-			//TODO: return error
-			panic("Invalid type")
+			// Unknown type name: no type. Every typed read then fails with an "Invalid TTLV type" error.
+			return 0
 		}
 	}
 	return TypeStructure
